@@ -54,6 +54,7 @@ type touchTracer struct {
 	cpcs    map[common.Address]bool
 	touched bool
 	targets map[common.Address]bool // every call target / self-destruct beneficiary
+	failed  int                     // frames (top-level included) that ended with an error: their effects must vanish
 }
 
 func (t *touchTracer) CaptureTxStart(uint64) {}
@@ -64,14 +65,22 @@ func (t *touchTracer) CaptureStart(_ *vm.EVM, _ common.Address, to common.Addres
 		t.touched = true
 	}
 }
-func (t *touchTracer) CaptureEnd([]byte, uint64, time.Duration, error) {}
+func (t *touchTracer) CaptureEnd(_ []byte, _ uint64, _ time.Duration, err error) {
+	if err != nil {
+		t.failed++
+	}
+}
 func (t *touchTracer) CaptureEnter(_ vm.OpCode, _ common.Address, to common.Address, _ []byte, _ uint64, _ *big.Int) {
 	t.targets[to] = true
 	if t.cpcs[to] {
 		t.touched = true
 	}
 }
-func (t *touchTracer) CaptureExit([]byte, uint64, error) {}
+func (t *touchTracer) CaptureExit(_ []byte, _ uint64, err error) {
+	if err != nil {
+		t.failed++
+	}
+}
 func (t *touchTracer) CaptureState(uint64, vm.OpCode, uint64, uint64, *vm.ScopeContext, []byte, int, error) {
 }
 func (t *touchTracer) CaptureFault(uint64, vm.OpCode, uint64, uint64, *vm.ScopeContext, int, error) {}
@@ -123,6 +132,7 @@ type refOutcome struct {
 	Touched      bool
 	Targets      map[common.Address]bool
 	Refund       uint64 // go-ethereum's refund counter at the end of the execution (before the cap)
+	FailedFrames int    // call frames that ended with an error in the reference execution
 }
 
 // runReference executes tx on the mirrored pre-state with go-ethereum's own state transition.
@@ -170,6 +180,7 @@ func (w *World) runReference(rec *BlockRecord, t *TxInfo, coinbase common.Addres
 	res, cerr := core.ApplyMessage(evm, msg, gp)
 	out.Touched = tr.touched
 	out.Targets = tr.targets
+	out.FailedFrames = tr.failed
 	if cerr != nil {
 		out.ConsensusErr = cerr
 		return out, nil
@@ -268,18 +279,27 @@ func oracleC02(w *World, rec *BlockRecord, t *TxInfo) {
 		return
 	}
 	r.Count("o:c02_compared")
+	r.Probe("c02_tx_with_failed_frame_compared", ref.FailedFrames > 0)
 	disc := func(field string) map[string]string { return map[string]string{"field": field, "tx": kind} }
+	// a difference in a transaction with failed call frames is also C03's business: whatever a reverted frame did
+	// must be gone, and go-ethereum's journal is the reference for "gone"
+	differs := func(d map[string]string, format string, args ...interface{}) {
+		r.Violate("C02", "differs_from_geth", d, format, args...)
+		if ref.FailedFrames > 0 {
+			r.Violate("C03", "reverted_frame_left_trace", map[string]string{"contract": "evm", "field": d["field"], "tx": d["tx"]}, "(transaction with %d failed call frames) "+format, append([]interface{}{ref.FailedFrames}, args...)...)
+		}
+	}
 	resp := DecodeDeliveredEth(t.Res)
 	gotErr := t.Rc.Err
 	if resp != nil {
 		gotErr = resp.VmError
 	}
 	if gotErr != vmErrStr(ref.Res.Err) {
-		r.Violate("C02", "differs_from_geth", disc("vm_error"), "vm error %q, go-ethereum gives %q (gas used %d vs %d)", gotErr, vmErrStr(ref.Res.Err), t.Rc.GasUsed, ref.Res.UsedGas)
+		differs(disc("vm_error"), "vm error %q, go-ethereum gives %q (gas used %d vs %d)", gotErr, vmErrStr(ref.Res.Err), t.Rc.GasUsed, ref.Res.UsedGas)
 		return
 	}
 	if t.Rc.GasUsed != ref.Res.UsedGas {
-		r.Violate("C02", "differs_from_geth", disc("gas_used"), "gas used %d, go-ethereum uses %d (gas limit %d, vm error %q)", t.Rc.GasUsed, ref.Res.UsedGas, tx.Gas(), gotErr)
+		differs(disc("gas_used"), "gas used %d, go-ethereum uses %d (gas limit %d, vm error %q)", t.Rc.GasUsed, ref.Res.UsedGas, tx.Gas(), gotErr)
 		if ref.Refund > 0 && t.Rc.GasUsed < ref.Res.UsedGas {
 			// go-ethereum applied min(refund counter, consumed/5): anything lower means more than a fifth was refunded
 			r.Violate("C05", "storage_refund_above_cap", nil, "gas used %d is below what the EIP-3529 cap allows (%d with refund counter %d)", t.Rc.GasUsed, ref.Res.UsedGas, ref.Refund)
@@ -287,10 +307,10 @@ func oracleC02(w *World, rec *BlockRecord, t *TxInfo) {
 	}
 	r.Probe("c02_refund_earning_tx_compared", ref.Refund > 0)
 	if resp != nil && !bytes.Equal(resp.Ret, ref.Res.ReturnData) {
-		r.Violate("C02", "differs_from_geth", disc("return_data"), "return data %x, go-ethereum returns %x", clipB(resp.Ret), clipB(ref.Res.ReturnData))
+		differs(disc("return_data"), "return data %x, go-ethereum returns %x", clipB(resp.Ret), clipB(ref.Res.ReturnData))
 	}
 	if t.Rc.Receipt != nil && !sameLogs(t.Rc.Receipt.Logs, ref.Logs) {
-		r.Violate("C02", "differs_from_geth", disc("logs"), "%d logs, go-ethereum emits %d (or contents differ)", len(t.Rc.Receipt.Logs), len(ref.Logs))
+		differs(disc("logs"), "%d logs, go-ethereum emits %d (or contents differ)", len(t.Rc.Receipt.Logs), len(ref.Logs))
 	}
 	// --- post-state of every account in the union of both post-states
 	price := EffectivePrice(tx, BaseFeeOf(t.Obs.Before))
@@ -325,7 +345,7 @@ func oracleC02(w *World, rec *BlockRecord, t *TxInfo) {
 			continue
 		}
 		if rn != en {
-			r.Violate("C02", "differs_from_geth", disc("nonce"), "nonce of %s is %d, go-ethereum gives %d", a.Hex(), en, rn)
+			differs(disc("nonce"), "nonce of %s is %d, go-ethereum gives %d", a.Hex(), en, rn)
 		}
 		// balance, with the documented fee routing removed
 		rb := new(big.Int)
@@ -349,7 +369,7 @@ func oracleC02(w *World, rec *BlockRecord, t *TxInfo) {
 			case FeeCollectorAddr:
 				role = "fee_collector"
 			}
-			r.Violate("C02", "differs_from_geth", map[string]string{"field": "balance", "tx": kind, "account": role}, "balance of %s (%s) is %s (fee routing removed), go-ethereum gives %s", a.Hex(), role, eb, rb)
+			differs(map[string]string{"field": "balance", "tx": kind, "account": role}, "balance of %s (%s) is %s (fee routing removed), go-ethereum gives %s", a.Hex(), role, eb, rb)
 		}
 		// code
 		var rc []byte
@@ -361,7 +381,7 @@ func oracleC02(w *World, rec *BlockRecord, t *TxInfo) {
 			ec = codeOf(t.Obs.After, ch)
 		}
 		if !bytes.Equal(rc, ec) {
-			r.Violate("C02", "differs_from_geth", disc("code"), "code of %s: %d bytes, go-ethereum has %d bytes", a.Hex(), len(ec), len(rc))
+			differs(disc("code"), "code of %s: %d bytes, go-ethereum has %d bytes", a.Hex(), len(ec), len(rc))
 		}
 		// storage (absent = zero)
 		slots := map[common.Hash]bool{}
@@ -384,7 +404,7 @@ func oracleC02(w *World, rec *BlockRecord, t *TxInfo) {
 				ev = common.BytesToHash(b)
 			}
 			if rv != ev {
-				r.Violate("C02", "differs_from_geth", disc("storage"), "storage %s[%s] = %s, go-ethereum has %s", a.Hex(), k.Hex(), ev.Hex(), rv.Hex())
+				differs(disc("storage"), "storage %s[%s] = %s, go-ethereum has %s", a.Hex(), k.Hex(), ev.Hex(), rv.Hex())
 				break
 			}
 		}
@@ -409,6 +429,14 @@ func RandAddr(i int) common.Address {
 
 // genProgram assembles a random, stack-neutral sequence of state-touching statements.
 func genProgram(rng *rand.Rand, self int, eoas []common.Address, cpc []common.Address) []byte {
+	return genProgramStyled(rng, self, eoas, cpc, 0)
+}
+
+// genProgramStyled: style 0 = one straight-line body. style 1 = "revert-heavy": two bodies selected by bit 0 of the
+// first call-data word (so one contract behaves differently in different frames of one transaction), calls pass an
+// explicit mode word and prefer the other generated programs and the contract itself (re-entrancy), and a body ends
+// with REVERT / INVALID / SELFDESTRUCT about as often as it returns.
+func genProgramStyled(rng *rand.Rand, self int, eoas []common.Address, cpc []common.Address, style int) []byte {
 	a := NewAsm()
 	type childCode struct {
 		label string
@@ -416,6 +444,9 @@ func genProgram(rng *rand.Rand, self int, eoas []common.Address, cpc []common.Ad
 	}
 	var children []childCode
 	target := func() common.Address {
+		if style == 1 && rng.IntN(10) < 4 {
+			return RandAddr(pick(rng, self, rng.IntN(nRand), rng.IntN(nRand)))
+		}
 		switch k := rng.IntN(10); {
 		case k < 5:
 			return RandAddr(rng.IntN(nRand))
@@ -429,81 +460,103 @@ func genProgram(rng *rand.Rand, self int, eoas []common.Address, cpc []common.Ad
 			return common.Address{}
 		}
 	}
-	n := 2 + rng.IntN(9)
-	for i := 0; i < n; i++ {
-		switch k := rng.IntN(100); {
-		case k < 16: // SSTORE
-			val := pick[interface{}](rng, 0, 0, 1, 2, 0xff)
-			a.Push(val).Push(rng.IntN(4)).Op(vm.SSTORE)
-		case k < 20: // SSTORE of something dynamic
-			a.Op(vm.CALLVALUE).Push(rng.IntN(4)).Op(vm.SSTORE)
-		case k < 26:
-			a.Push(rng.IntN(5)).Op(vm.SLOAD, vm.POP)
-		case k < 34: // LOGn
-			nt := rng.IntN(3)
-			for j := 0; j < nt; j++ {
-				a.Push(0x10 + j)
-			}
-			a.Push(rng.IntN(40)).Push(0).Op(vm.OpCode(int(vm.LOG0) + nt))
-		case k < 42:
-			a.Push(target()).Op(pick(rng, vm.BALANCE, vm.EXTCODESIZE, vm.EXTCODEHASH), vm.POP)
-		case k < 45:
-			a.Op(vm.COINBASE, pick(rng, vm.BALANCE, vm.EXTCODESIZE), vm.POP)
-		case k < 48 && len(cpc) > 0: // touch (never call) a custom precompile address
-			a.Push(cpc[rng.IntN(len(cpc))]).Op(pick(rng, vm.BALANCE, vm.EXTCODESIZE, vm.EXTCODEHASH), vm.POP)
-		case k < 50:
-			a.Op(vm.SELFBALANCE, vm.POP)
-		case k < 53:
-			a.Push(32).Push(0).Push(0).Push(target()).Op(vm.EXTCODECOPY)
-		case k < 76: // a call of some kind
-			op := pick(rng, vm.CALL, vm.CALL, vm.STATICCALL, vm.DELEGATECALL, vm.CALLCODE)
-			a.Push(32).Push(0).Push(32).Push(0) // outSize outOff inSize inOff
-			if op == vm.CALL || op == vm.CALLCODE {
-				a.Push(pick(rng, 0, 0, 1, 1000))
-			}
-			a.Push(target())
-			switch rng.IntN(4) {
-			case 0:
-				a.Push(pick(rng, 2300, 10000, 50000, 700))
-			default:
-				a.Op(vm.GAS)
-			}
-			a.Op(op)
-			if rng.IntN(3) == 0 {
-				a.Push(0).Op(vm.MSTORE) // keep the success flag in memory (it may be returned)
-			} else {
-				a.Op(vm.POP)
-			}
-		case k < 84: // CREATE / CREATE2 of a small child
-			child := pick(rng, InitCodeFor(TmplStore(), func(x *Asm) { x.Push(7).Push(1).Op(vm.SSTORE) }), InitCodeFor(TmplSelfDestruct(), nil), []byte{byte(vm.PUSH1), 0, byte(vm.PUSH1), 0, byte(vm.REVERT)}, []byte{byte(vm.INVALID)}, InitCodeFor([]byte{}, func(x *Asm) { x.Push(9).Push(2).Op(vm.SSTORE) }))
-			lbl := fmt.Sprintf("ch%d", i)
-			a.Push(len(child)).PushLabel(lbl).Push(64).Op(vm.CODECOPY)
-			if rng.IntN(2) == 0 {
-				a.Push(len(child)).Push(64).Push(pick(rng, 0, 1)).Op(vm.CREATE, vm.POP)
-			} else {
-				a.Push(rng.IntN(3)).Push(len(child)).Push(64).Push(pick(rng, 0, 1)).Op(vm.CREATE2, vm.POP)
-			}
-			children = append(children, childCode{lbl, child})
-		case k < 88: // clear a slot (refund)
-			a.Push(0).Push(rng.IntN(4)).Op(vm.SSTORE)
-		case k < 92:
-			a.Op(pick(rng, vm.RETURNDATASIZE, vm.GAS, vm.CALLER, vm.ORIGIN, vm.ADDRESS, vm.CODESIZE, vm.GASPRICE), vm.POP)
-		default: // early end
-			switch rng.IntN(5) {
-			case 0:
-				a.Push(32).Push(0).Op(vm.REVERT)
-			case 1:
-				a.Op(vm.INVALID)
-			case 2:
-				a.Push(target()).Op(vm.SELFDESTRUCT)
-			case 3:
-				a.Push(32).Push(0).Op(vm.RETURN)
-			default:
-				a.Op(vm.STOP)
+	bodies := []string{""}
+	if style == 1 {
+		bodies = []string{"A", "B"}
+		a.Push(0).Op(vm.CALLDATALOAD).Push(1).Op(vm.AND).PushLabel("bodyB").Op(vm.JUMPI)
+	}
+	for bi, body := range bodies {
+		if bi == 1 {
+			a.Label("bodyB")
+		}
+		n := 2 + rng.IntN(9)
+		for i := 0; i < n; i++ {
+			switch k := rng.IntN(100); {
+			case k < 16: // SSTORE
+				val := pick[interface{}](rng, 0, 0, 1, 2, 0xff)
+				a.Push(val).Push(rng.IntN(4)).Op(vm.SSTORE)
+			case k < 20: // SSTORE of something dynamic
+				a.Op(vm.CALLVALUE).Push(rng.IntN(4)).Op(vm.SSTORE)
+			case k < 26:
+				a.Push(rng.IntN(5)).Op(vm.SLOAD, vm.POP)
+			case k < 34: // LOGn
+				nt := rng.IntN(3)
+				for j := 0; j < nt; j++ {
+					a.Push(0x10 + j)
+				}
+				a.Push(rng.IntN(40)).Push(0).Op(vm.OpCode(int(vm.LOG0) + nt))
+			case k < 42:
+				a.Push(target()).Op(pick(rng, vm.BALANCE, vm.EXTCODESIZE, vm.EXTCODEHASH), vm.POP)
+			case k < 45:
+				a.Op(vm.COINBASE, pick(rng, vm.BALANCE, vm.EXTCODESIZE), vm.POP)
+			case k < 48 && len(cpc) > 0: // touch (never call) a custom precompile address
+				a.Push(cpc[rng.IntN(len(cpc))]).Op(pick(rng, vm.BALANCE, vm.EXTCODESIZE, vm.EXTCODEHASH), vm.POP)
+			case k < 50:
+				a.Op(vm.SELFBALANCE, vm.POP)
+			case k < 53:
+				a.Push(32).Push(0).Push(0).Push(target()).Op(vm.EXTCODECOPY)
+			case k < 76: // a call of some kind
+				op := pick(rng, vm.CALL, vm.CALL, vm.STATICCALL, vm.DELEGATECALL, vm.CALLCODE)
+				if style == 1 && rng.IntN(3) > 0 {
+					a.Push(rng.IntN(2)).Push(0).Op(vm.MSTORE) // the mode word the callee branches on
+				}
+				a.Push(32).Push(0).Push(32).Push(0) // outSize outOff inSize inOff
+				if op == vm.CALL || op == vm.CALLCODE {
+					a.Push(pick(rng, 0, 0, 1, 1000))
+				}
+				a.Push(target())
+				switch rng.IntN(4) {
+				case 0:
+					a.Push(pick(rng, 2300, 10000, 50000, 700))
+				default:
+					a.Op(vm.GAS)
+				}
+				a.Op(op)
+				if rng.IntN(3) == 0 {
+					a.Push(0).Op(vm.MSTORE) // keep the success flag in memory (it may be returned)
+				} else {
+					a.Op(vm.POP)
+				}
+			case k < 84: // CREATE / CREATE2 of a small child
+				child := pick(rng, InitCodeFor(TmplStore(), func(x *Asm) { x.Push(7).Push(1).Op(vm.SSTORE) }), InitCodeFor(TmplSelfDestruct(), nil), []byte{byte(vm.PUSH1), 0, byte(vm.PUSH1), 0, byte(vm.REVERT)}, []byte{byte(vm.INVALID)}, InitCodeFor([]byte{}, func(x *Asm) { x.Push(9).Push(2).Op(vm.SSTORE) }))
+				lbl := fmt.Sprintf("ch%s%d", body, i)
+				a.Push(len(child)).PushLabel(lbl).Push(64).Op(vm.CODECOPY)
+				if rng.IntN(2) == 0 {
+					a.Push(len(child)).Push(64).Push(pick(rng, 0, 1)).Op(vm.CREATE, vm.POP)
+				} else {
+					a.Push(rng.IntN(3)).Push(len(child)).Push(64).Push(pick(rng, 0, 1)).Op(vm.CREATE2, vm.POP)
+				}
+				children = append(children, childCode{lbl, child})
+			case k < 88: // clear a slot (refund)
+				a.Push(0).Push(rng.IntN(4)).Op(vm.SSTORE)
+			case k < 92:
+				a.Op(pick(rng, vm.RETURNDATASIZE, vm.GAS, vm.CALLER, vm.ORIGIN, vm.ADDRESS, vm.CODESIZE, vm.GASPRICE), vm.POP)
+			default: // early end
+				switch rng.IntN(5) {
+				case 0:
+					a.Push(32).Push(0).Op(vm.REVERT)
+				case 1:
+					a.Op(vm.INVALID)
+				case 2:
+					a.Push(target()).Op(vm.SELFDESTRUCT)
+				case 3:
+					a.Push(32).Push(0).Op(vm.RETURN)
+				default:
+					a.Op(vm.STOP)
+				}
 			}
 		}
+		switch k := rng.IntN(100); {
+		case style == 1 && k < 30:
+			a.Push(32).Push(0).Op(vm.REVERT)
+		case style == 1 && k < 40:
+			a.Op(vm.INVALID)
+		case style == 1 && k < 55:
+			a.Push(target()).Op(vm.SELFDESTRUCT)
+		default:
+			a.Push(32).Push(0).Op(vm.RETURN)
+		}
 	}
-	a.Push(32).Push(0).Op(vm.RETURN)
 	for _, c := range children {
 		a.Mark(c.label).Raw(c.code)
 	}
